@@ -4,12 +4,13 @@
    `check_sound` proves, with the logic of StackLogic.v, that an expression that checks never drives
    the real actions (Actions.exec_action) into a crash site.  The checker is evaluated on the grammar
    regenerated from jsonpath.peg (StackRules.v). *)
-From JP Require Import Peg Text Tree Actions Eval WF AccDefs PegFacts ParseFacts ErrPos StackLogic TreeWf.
+From JP Require Import Peg Text Tree Actions Eval WF AccDefs PegFacts ParseFacts ErrPos StackLogic TreeWf TreeText.
 From Coq Require Import Lia.
 Open Scope list_scope.
 Open Scope nat_scope.
 
-Inductive ity := TNode | TRooted | TRootedH | TUnion | TStr | TIdx | TSubs | TQuery | TQueryRaw | TPQ | TBool | TLit | TCP.
+Inductive ity := TNodeT | TRooted | TRootedH | TUnion | TF | TFT | TFI | TFIT | TFM
+                | TStr | TIdx | TSubs | TQuery | TQueryRaw | TPQ | TBool | TLit | TCP.
 Scheme Equality for ity.
 
 Definition rootedb (n : node) : bool :=
@@ -39,12 +40,21 @@ Definition rawq (q : query) : bool :=
 Definition pqwf (p : pquery) : bool :=
   match p with PqCur n | PqRoot n => nwf n && hvg n && all_false n | PqLit _ => false end.
 
+(* a node as the bracket rules leave it: well formed, no continuation anywhere, identifiers plain *)
+Definition fwf (n : node) : bool := nwf n && flat n && tlp false n.
+Definition ntext (n : node) : bool := nonempty_s (text (node_basic n)).
+
 Definition has_ty (x : item) (t : ity) : bool :=
   match t, x with
-  | TNode, INode n => nwf n
-  | TRooted, INode n => nwf n && rootedb n
-  | TRootedH, INode n => nwf n && rootedb n && hvg n
-  | TUnion, INode (Node (KUnion subs) b nx) => nwf (Node (KUnion subs) b nx)
+  | TNodeT, INode n => nwf n && tlp true n
+  | TRooted, INode n => nwf n && tlp true n && rootedb n
+  | TRootedH, INode n => nwf n && tlp true n && rootedb n && hvg n
+  | TUnion, INode (Node (KUnion subs) b nx) => fwf (Node (KUnion subs) b nx)
+  | TF, INode n => fwf n
+  | TFT, INode n => fwf n && ntext n
+  | TFI, INode n => fwf n && simple_id n
+  | TFIT, INode n => fwf n && simple_id n && ntext n
+  | TFM, INode n => fwf n && (simple_id n || is_multi n)
   | TStr, IStr _ => true
   | TIdx, IIdx i => idx_okb i
   | TSubs, IIdx i => idx_okb i
@@ -64,25 +74,45 @@ Definition has_ty (x : item) (t : ity) : bool :=
 Definition subty (a b : ity) : bool :=
   ity_beq a b ||
   match a, b with
-  | TRooted, TNode | TRootedH, TNode | TRootedH, TRooted | TUnion, TNode | TIdx, TSubs | TQuery, TQueryRaw => true
+  | TRootedH, TRooted | TRootedH, TNodeT | TRooted, TNodeT => true
+  | TFIT, TFI | TFIT, TFT | TFIT, TFM | TFIT, TF | TFIT, TNodeT => true
+  | TFI, TFM | TFI, TF | TFT, TF | TFT, TNodeT | TFM, TF | TUnion, TF => true
+  | TIdx, TSubs | TQuery, TQueryRaw => true
   | _, _ => false
   end.
 
+Lemma fwf_tnode n : fwf n = true -> ntext n = true -> nwf n && tlp true n = true.
+Proof.
+  unfold fwf, ntext. intros H Ht. apply andb_true_iff in H. destruct H as [H Htl]. apply andb_true_iff in H. destruct H as [Hn Hf].
+  rewrite Hn, (flat_tlp n Hf Htl Ht). reflexivity.
+Qed.
+
+Ltac split_hyps :=
+  repeat match goal with
+         | H : _ && _ = true |- _ => apply andb_true_iff in H; destruct H
+         end.
+Ltac split_goal :=
+  repeat match goal with
+         | |- _ && _ = true => apply andb_true_iff; split
+         end.
+
 Lemma has_ty_sub x a b : has_ty x a = true -> subty a b = true -> has_ty x b = true.
 Proof.
-  destruct a, b; cbn [subty ity_beq orb]; intros H Hs; try discriminate; try exact H;
-    destruct x; try discriminate; cbn [has_ty] in *.
-  - apply andb_true_iff in H. apply H.
-  - apply andb_true_iff in H. destruct H as [H _]. apply andb_true_iff in H. apply H.
-  - apply andb_true_iff in H. apply H.
-  - destruct n as [k bb nx]. destruct k; try discriminate. exact H.
-  - exact H.
-  - apply andb_true_iff in H. destruct H as [H1 H2]. unfold rawq. rewrite H1, H2. reflexivity.
+  destruct a, b; cbn [subty ity_beq orb]; intros H Hs; try discriminate Hs; try exact H;
+    destruct x; try discriminate H; cbn [has_ty] in *.
+  all: try (destruct n as [k bb nx]; destruct k; try discriminate H; exact H).
+  all: try (unfold rawq; split_hyps; split_goal; try assumption;
+            match goal with Hw : wf_query _ = true |- _ => rewrite Hw; reflexivity end).
+  all: try (split_hyps; split_goal; try assumption; fail).
+  all: try (split_hyps; apply fwf_tnode; assumption).
+  all: try (split_hyps; split_goal; try assumption;
+            match goal with Hs' : simple_id _ = true |- _ => rewrite Hs'; reflexivity end).
 Qed.
 
 Definition lub (a b : ity) : option ity :=
   if subty a b then Some b else if subty b a then Some a
-  else if subty a TNode && subty b TNode then Some TNode else None.
+  else if subty a TF && subty b TF then Some TF
+  else if subty a TNodeT && subty b TNodeT then Some TNodeT else None.
 Lemma lub_ub a b c : lub a b = Some c -> subty a c = true /\ subty b c = true.
 Proof. destruct a, b; cbn; intros H; inversion H; subst; split; reflexivity. Qed.
 
@@ -116,18 +146,20 @@ Proof. unfold update_vg. destruct (chain_vg n); [apply rootedb_set_node_vg|refle
 (* (types popped, top first; types pushed, top first) *)
 Definition sig (n : nat) : option (list ity * list ity) :=
   match n with
-  | 3 | 4 | 7 => Some ([TNode], [TNode])
-  | 5 => Some ([TStr], [TNode])
+  | 3 => Some ([TNodeT], [TNodeT])
+  | 4 | 7 => Some ([TF], [TFT])
+  | 5 => Some ([TStr], [TFT])
   | 6 => Some ([], [TStr])
   | 8 | 9 => Some ([], [TRooted])
-  | 10 | 12 | 13 | 14 => Some ([], [TNode])
-  | 11 => Some ([TNode; TNode], [TNode])
+  | 10 | 12 => Some ([], [TFIT])
+  | 13 | 14 => Some ([], [TFI])
+  | 11 => Some ([TFI; TFM], [TFM])
   | 15 => Some ([TUnion; TUnion], [TUnion])
   | 16 => Some ([TIdx; TIdx; TIdx], [TSubs])
   | 17 | 18 => Some ([], [TSubs])
   | 19 => Some ([TSubs], [TUnion])
   | 20 | 21 => Some ([], [TIdx])
-  | 23 => Some ([TQuery], [TNode])
+  | 23 => Some ([TQuery], [TF])
   | 24 | 25 => Some ([TQuery; TQuery], [TQuery])
   | 26 => Some ([TQueryRaw], [TQuery])
   | 27 => Some ([TBool; TPQ], [TQuery])
@@ -137,9 +169,24 @@ Definition sig (n : nat) : option (list ity * list ity) :=
   | 40 | 41 | 42 | 43 | 44 | 45 => Some ([], [TLit])
   | _ => None
   end.
+(* actions that look at the captured text: it must be non-empty *)
+Definition needs_cap (n : nat) : bool :=
+  match n with 4 | 5 | 7 | 10 | 27 => true | _ => false end.
 
 
 (* ---------- facts the action proofs use ---------- *)
+Fixpoint flat_ids_snoc (ids : nodes) (x : node) : flat_ids (nodes_snoc ids x) = flat_ids ids && flat_ids (NCons x NNil).
+Proof.
+  destruct ids as [|[ik ib inx] r]; cbn [nodes_snoc flat_ids].
+  - destruct x as [xk xb xn]. cbn [flat_ids]. reflexivity.
+  - rewrite flat_ids_snoc, andb_assoc. reflexivity.
+Qed.
+Fixpoint tlp_ids_snoc (s : bool) (ids : nodes) (x : node) : tlp_ids s (nodes_snoc ids x) = tlp_ids s ids && tlp_ids s (NCons x NNil).
+Proof.
+  destruct ids as [|[ik ib inx] r]; cbn [nodes_snoc tlp_ids].
+  - destruct x as [xk xb xn]. cbn [tlp_ids]. reflexivity.
+  - rewrite tlp_ids_snoc, andb_assoc. reflexivity.
+Qed.
 Fixpoint wf_nodes_snoc (ids : nodes) (x : node) : wf_nodes (nodes_snoc ids x) = wf_nodes ids && wf_node x.
 Proof.
   destruct ids as [|i r]; cbn [nodes_snoc wf_nodes].
@@ -250,6 +297,86 @@ Proof.
   - apply Nat.ltb_ge in E. apply Hgen; assumption.
 Qed.
 
+
+(* ---------- equations (the mutual fixpoints are unfolded by rewriting, never by cbn) ---------- *)
+Lemma wf_node_eq k b next :
+  wf_node (Node k b next) =
+  (match k with
+   | KMulti ids aw uq => wf_nodes ids && (match uq with OSome u => wf_node u | ONone => negb aw end)
+   | KRec _ _ => match next with OSome _ => true | ONone => false end
+   | KUnion subs => forallb sub_okb subs
+   | KFilter q => wf_query q
+   | KAgg _ param => wf_node param
+   | _ => true
+   end) && match next with OSome m => wf_node m | ONone => true end.
+Proof. reflexivity. Qed.
+Lemma acc_clean_eq k b next :
+  acc_clean (Node k b next) =
+  (match k with
+   | KMulti ids _ uq => acc_clean_ids ids && match uq with OSome u => acc_clean u | ONone => true end
+   | KFilter q => all_false_q q
+   | KAgg _ p => all_false p
+   | _ => true
+   end) && match next with OSome m => acc_clean m | ONone => true end.
+Proof. reflexivity. Qed.
+Lemma tlp_eq s k b next :
+  tlp s (Node k b next) =
+  (match k with
+   | KMulti ids _ uq =>
+       tlp_ids s ids &&
+       match uq with
+       | OSome (Node uk _ unx) =>
+           (match uk with KUnion _ => true | _ => false end) && match unx with OSome m => tlp s m | ONone => true end
+       | ONone => true
+       end
+   | KAgg _ param => tlp false param
+   | _ => true
+   end) && match next with ONone => negb s || nonempty_s (text b) | OSome m => tlp s m end.
+Proof. reflexivity. Qed.
+Lemma wf_nodes_two a b : wf_nodes (NCons a (NCons b NNil)) = wf_node a && wf_node b.
+Proof. cbn [wf_nodes]. rewrite andb_true_r. reflexivity. Qed.
+Lemma acc_ids_two a b : acc_clean_ids (NCons a (NCons b NNil)) = acc_clean a && acc_clean b.
+Proof. cbn [acc_clean_ids]. rewrite andb_true_r. reflexivity. Qed.
+
+Section PushMulti.
+  Variable cfg : config.
+  Lemma push_multi_ok n app st : has_ty (INode n) TFM = true -> has_ty (INode app) TFI = true ->
+    exists m, push_multi cfg n app st = push (INode m) st /\ has_ty (INode m) TFM = true.
+  Proof.
+    cbn [has_ty]. unfold fwf, nwf. intros Hn Ha. split_hyps.
+    destruct app as [ak ab an]. destruct n as [k b nx].
+    match goal with H : flat (Node ak ab an) = true |- _ => cbn [flat] in H; destruct an; [|discriminate H] end.
+    match goal with H : flat (Node k b nx) = true |- _ => cbn [flat] in H; destruct nx; [|discriminate H] end.
+    assert (Haid : match ak with KSingle _ | KWild => true | _ => false end = true) by assumption.
+    destruct k as [| |key| |ids aw uq|mr lr|subs|q|f|f param];
+      try (match goal with H : simple_id _ || is_multi _ = true |- _ => discriminate H end).
+    - (* a name and an identifier: a new multi-name selector *)
+      eexists. split; [reflexivity|]. cbn [has_ty]. unfold fwf, nwf.
+      rewrite !wf_node_eq, !acc_clean_eq, !tlp_eq, wf_nodes_two, acc_ids_two in *.
+      cbn [vgc single_kind orb andb flat flat_ids tlp_ids simple_id is_multi node_kind mk_basic vgroup is_wild].
+      split_hyps. destruct ak; try discriminate Haid; cbn [andb negb orb]; repeat (rewrite ?andb_true_r; try reflexivity); split_goal; try assumption; try reflexivity.
+    - eexists. split; [reflexivity|]. cbn [has_ty]. unfold fwf, nwf.
+      rewrite !wf_node_eq, !acc_clean_eq, !tlp_eq, wf_nodes_two, acc_ids_two in *.
+      cbn [vgc single_kind orb andb flat flat_ids tlp_ids simple_id is_multi node_kind mk_basic vgroup is_wild].
+      split_hyps. destruct ak; try discriminate Haid; cbn [andb negb orb wf_node acc_clean tlp forallb sub_okb]; split_goal; try assumption; try reflexivity.
+    - (* an existing multi-name selector grows *)
+      cbn [push_multi]. eexists. split; [reflexivity|]. cbn [has_ty]. unfold fwf, nwf.
+      rewrite !wf_node_eq, !acc_clean_eq, !tlp_eq in *. rewrite wf_nodes_snoc, acc_clean_ids_snoc, tlp_ids_snoc.
+      cbn [vgc single_kind orb andb flat simple_id is_multi node_kind] in *. rewrite flat_ids_snoc.
+      split_hyps.
+      assert (Hta : tlp_ids false (NCons (Node ak ab ONone) NNil) = true) by (cbn [tlp_ids]; rewrite Haid; reflexivity).
+      assert (Hfa : flat_ids (NCons (Node ak ab ONone) NNil) = true) by reflexivity.
+      rewrite Hta, Hfa.
+      destruct (aw && is_wild (Node ak ab ONone)) eqn:Eaw.
+      + apply andb_true_iff in Eaw. destruct Eaw as [-> Ew].
+        destruct uq as [|[uk ub unx]]; [match goal with H : negb true = true |- _ => discriminate H end|].
+        destruct uk; try (match goal with H : false && _ = true |- _ => discriminate H | H : false = true |- _ => discriminate H end);
+          cbn [andb negb orb] in *; rewrite ?wf_node_eq, ?acc_clean_eq in *; split_hyps; rewrite ?forallb_app; cbn [forallb sub_okb andb];
+          split_goal; try assumption; try reflexivity; rewrite ?wf_node_eq, ?acc_clean_eq, ?andb_true_r; assumption.
+      + cbn [andb negb orb]. split_goal; try assumption; try reflexivity; rewrite ?wf_node_eq, ?acc_clean_eq, ?andb_true_r; assumption.
+  Qed.
+End PushMulti.
+
 Lemma act26_eq (q : query) (bg : nat) (st1 : pstate) :
   match (match IQuery q with IQuery (QNot q') => Some q' | IQuery q' => Some q' | _ => None end) with
   | Some (QCmp (CP (PqCur _) _) (CP (PqCur _) _) _) => AErr (ESyntax bg RTwoCurrent)
@@ -282,11 +409,16 @@ Section ActSound.
   Ltac norm_in H :=
     cbn [has_ty wf_node wf_nodes wf_query wf_pquery vgc single_kind node_kind node_basic vgroup
          acc_clean acc_clean_ids all_false all_false_ids all_false_q all_false_p accessor
+         flat flat_ids tlp tlp_ids simple_id is_multi text
          cpwf scalarb negb andb orb forallb] in H.
   Ltac unpack :=
     repeat match goal with
            | H : has_ty _ _ = true |- _ => progress norm_in H
            | H : nwf _ = true |- _ => unfold nwf in H
+           | H : fwf _ = true |- _ => unfold fwf in H
+           | H : ntext _ = true |- _ => unfold ntext in H; cbn [node_basic] in H
+           | H : flat (Node _ _ _) = true |- _ => progress norm_in H
+           | H : tlp _ (Node _ _ _) = true |- _ => progress norm_in H
            | H : pqwf _ = true |- _ => unfold pqwf in H
            | H : wf_node (Node _ _ _) = true |- _ => progress norm_in H
            | H : vgc (Node _ _ _) = true |- _ => progress norm_in H
@@ -306,19 +438,25 @@ Section ActSound.
       | apply orb_true_r
       | apply sub_single_or_group
       | apply sub_okb_mk_slice; assumption
+      | rewrite forallb_app; apply andb_true_iff; split; assumption
+      | apply text_of_nonempty; assumption
+      | apply text_of_nonempty; apply unescape_cps_nonempty; assumption
       | match goal with
         | H : atoi _ = Some ?z |- _ => exact (atoi_in64 _ _ H)
         | H : idx_okb ?i = true |- sub_okb (SubIndex (number ?i)) = true => exact H
         end ].
   Ltac inv_goal :=
     unpack;
-    cbn [has_ty]; unfold nwf, pqwf;
-    rewrite ?wf_nodes_snoc, ?acc_clean_ids_snoc, ?forallb_app;
-    cbn [wf_node wf_nodes wf_query wf_pquery vgc single_kind node_kind node_basic vgroup mk_basic set_vgroup set_text
-         acc_clean acc_clean_ids all_false all_false_ids all_false_q all_false_p accessor
-         cpwf scalarb negb andb orb forallb];
-    rewrite ?wf_nodes_snoc, ?acc_clean_ids_snoc, ?forallb_app;
-    cbn [wf_node wf_nodes acc_clean acc_clean_ids forallb sub_okb andb];
+    cbn [has_ty]; unfold nwf, pqwf, fwf, ntext;
+    rewrite ?wf_nodes_snoc, ?acc_clean_ids_snoc, ?flat_ids_snoc, ?tlp_ids_snoc, ?forallb_app;
+    cbn [wf_node wf_query wf_pquery vgc single_kind node_kind node_basic vgroup mk_basic set_vgroup set_text
+         acc_clean all_false all_false_q all_false_p accessor
+         flat tlp simple_id is_multi text
+         cpwf scalarb negb andb orb];
+    rewrite ?wf_nodes_snoc, ?acc_clean_ids_snoc, ?flat_ids_snoc, ?tlp_ids_snoc, ?forallb_app;
+    cbn [wf_node wf_nodes acc_clean acc_clean_ids all_false_ids flat_ids tlp_ids forallb sub_okb andb negb orb];
+    rewrite ?forallb_app;
+    cbn [forallb sub_okb andb];
     repeat (first [ close_goal | (apply andb_true_iff; split) ]).
   Ltac fin :=
     repeat first [ rewrite push_G | progress cbn [wpa abind] ];
@@ -363,57 +501,57 @@ Section ActSound.
   Qed.
 
   Lemma act_sound an req out vtop cps b ps sv pr :
-    sig an = Some (req, out) -> typed vtop req -> (an = 27 -> cps <> []) ->
+    sig an = Some (req, out) -> typed vtop req -> (needs_cap an = true -> cps <> []) ->
     wpa (exec_action an cps b (mk (ps ++ rev vtop) sv pr))
         (fun st' => exists vout, typed vout out /\ st' = mk (ps ++ rev vout) sv pr).
   Proof.
     intros Hs Ht Hc.
-    destruct an as [|an]. { cbn [sig] in Hs; try discriminate Hs; inversion Hs; subst req out; clear Hs; inv_typed; kill_items; prep; unpack; try (destruct (first_byte_nonempty cps (Hc eq_refl)) as [fb Hfb]); solve [act_tac]. }
-    destruct an as [|an]. { cbn [sig] in Hs; try discriminate Hs; inversion Hs; subst req out; clear Hs; inv_typed; kill_items; prep; unpack; try (destruct (first_byte_nonempty cps (Hc eq_refl)) as [fb Hfb]); solve [act_tac]. }
-    destruct an as [|an]. { cbn [sig] in Hs; try discriminate Hs; inversion Hs; subst req out; clear Hs; inv_typed; kill_items; prep; unpack; try (destruct (first_byte_nonempty cps (Hc eq_refl)) as [fb Hfb]); solve [act_tac]. }
-    destruct an as [|an]. { cbn [sig] in Hs; try discriminate Hs; inversion Hs; subst req out; clear Hs; inv_typed; kill_items; prep; unpack; try (destruct (first_byte_nonempty cps (Hc eq_refl)) as [fb Hfb]); solve [act_tac]. }
-    destruct an as [|an]. { cbn [sig] in Hs; try discriminate Hs; inversion Hs; subst req out; clear Hs; inv_typed; kill_items; prep; unpack; try (destruct (first_byte_nonempty cps (Hc eq_refl)) as [fb Hfb]); solve [act_tac]. }
-    destruct an as [|an]. { cbn [sig] in Hs; try discriminate Hs; inversion Hs; subst req out; clear Hs; inv_typed; kill_items; prep; unpack; try (destruct (first_byte_nonempty cps (Hc eq_refl)) as [fb Hfb]); solve [act_tac]. }
-    destruct an as [|an]. { cbn [sig] in Hs; try discriminate Hs; inversion Hs; subst req out; clear Hs; inv_typed; kill_items; prep; unpack; try (destruct (first_byte_nonempty cps (Hc eq_refl)) as [fb Hfb]); solve [act_tac]. }
-    destruct an as [|an]. { cbn [sig] in Hs; try discriminate Hs; inversion Hs; subst req out; clear Hs; inv_typed; kill_items; prep; unpack; try (destruct (first_byte_nonempty cps (Hc eq_refl)) as [fb Hfb]); solve [act_tac]. }
-    destruct an as [|an]. { cbn [sig] in Hs; try discriminate Hs; inversion Hs; subst req out; clear Hs; inv_typed; kill_items; prep; unpack; try (destruct (first_byte_nonempty cps (Hc eq_refl)) as [fb Hfb]); solve [act_tac]. }
-    destruct an as [|an]. { cbn [sig] in Hs; try discriminate Hs; inversion Hs; subst req out; clear Hs; inv_typed; kill_items; prep; unpack; try (destruct (first_byte_nonempty cps (Hc eq_refl)) as [fb Hfb]); solve [act_tac]. }
-    destruct an as [|an]. { cbn [sig] in Hs; try discriminate Hs; inversion Hs; subst req out; clear Hs; inv_typed; kill_items; prep; unpack; try (destruct (first_byte_nonempty cps (Hc eq_refl)) as [fb Hfb]); solve [act_tac]. }
-    destruct an as [|an]. { cbn [sig] in Hs; try discriminate Hs; inversion Hs; subst req out; clear Hs; inv_typed; kill_items; prep; unpack; try (destruct (first_byte_nonempty cps (Hc eq_refl)) as [fb Hfb]); solve [act_tac]. }
-    destruct an as [|an]. { cbn [sig] in Hs; try discriminate Hs; inversion Hs; subst req out; clear Hs; inv_typed; kill_items; prep; unpack; try (destruct (first_byte_nonempty cps (Hc eq_refl)) as [fb Hfb]); solve [act_tac]. }
-    destruct an as [|an]. { cbn [sig] in Hs; try discriminate Hs; inversion Hs; subst req out; clear Hs; inv_typed; kill_items; prep; unpack; try (destruct (first_byte_nonempty cps (Hc eq_refl)) as [fb Hfb]); solve [act_tac]. }
-    destruct an as [|an]. { cbn [sig] in Hs; try discriminate Hs; inversion Hs; subst req out; clear Hs; inv_typed; kill_items; prep; unpack; try (destruct (first_byte_nonempty cps (Hc eq_refl)) as [fb Hfb]); solve [act_tac]. }
-    destruct an as [|an]. { cbn [sig] in Hs; try discriminate Hs; inversion Hs; subst req out; clear Hs; inv_typed; kill_items; prep; unpack; try (destruct (first_byte_nonempty cps (Hc eq_refl)) as [fb Hfb]); solve [act_tac]. }
-    destruct an as [|an]. { cbn [sig] in Hs; try discriminate Hs; inversion Hs; subst req out; clear Hs; inv_typed; kill_items; prep; unpack; try (destruct (first_byte_nonempty cps (Hc eq_refl)) as [fb Hfb]); solve [act_tac]. }
-    destruct an as [|an]. { cbn [sig] in Hs; try discriminate Hs; inversion Hs; subst req out; clear Hs; inv_typed; kill_items; prep; unpack; try (destruct (first_byte_nonempty cps (Hc eq_refl)) as [fb Hfb]); solve [act_tac]. }
-    destruct an as [|an]. { cbn [sig] in Hs; try discriminate Hs; inversion Hs; subst req out; clear Hs; inv_typed; kill_items; prep; unpack; try (destruct (first_byte_nonempty cps (Hc eq_refl)) as [fb Hfb]); solve [act_tac]. }
-    destruct an as [|an]. { cbn [sig] in Hs; try discriminate Hs; inversion Hs; subst req out; clear Hs; inv_typed; kill_items; prep; unpack; try (destruct (first_byte_nonempty cps (Hc eq_refl)) as [fb Hfb]); solve [act_tac]. }
-    destruct an as [|an]. { cbn [sig] in Hs; try discriminate Hs; inversion Hs; subst req out; clear Hs; inv_typed; kill_items; prep; unpack; try (destruct (first_byte_nonempty cps (Hc eq_refl)) as [fb Hfb]); solve [act_tac]. }
-    destruct an as [|an]. { cbn [sig] in Hs; try discriminate Hs; inversion Hs; subst req out; clear Hs; inv_typed; kill_items; prep; unpack; try (destruct (first_byte_nonempty cps (Hc eq_refl)) as [fb Hfb]); solve [act_tac]. }
-    destruct an as [|an]. { cbn [sig] in Hs; try discriminate Hs; inversion Hs; subst req out; clear Hs; inv_typed; kill_items; prep; unpack; try (destruct (first_byte_nonempty cps (Hc eq_refl)) as [fb Hfb]); solve [act_tac]. }
-    destruct an as [|an]. { cbn [sig] in Hs; try discriminate Hs; inversion Hs; subst req out; clear Hs; inv_typed; kill_items; prep; unpack; try (destruct (first_byte_nonempty cps (Hc eq_refl)) as [fb Hfb]); solve [act_tac]. }
-    destruct an as [|an]. { cbn [sig] in Hs; try discriminate Hs; inversion Hs; subst req out; clear Hs; inv_typed; kill_items; prep; unpack; try (destruct (first_byte_nonempty cps (Hc eq_refl)) as [fb Hfb]); solve [act_tac]. }
-    destruct an as [|an]. { cbn [sig] in Hs; try discriminate Hs; inversion Hs; subst req out; clear Hs; inv_typed; kill_items; prep; unpack; try (destruct (first_byte_nonempty cps (Hc eq_refl)) as [fb Hfb]); solve [act_tac]. }
+    destruct an as [|an]. { cbn [sig] in Hs; try discriminate Hs; inversion Hs; subst req out; clear Hs; inv_typed; kill_items; prep; unpack; try (pose proof (Hc eq_refl) as Hcps; try (destruct (first_byte_nonempty cps Hcps) as [fb Hfb])); solve [act_tac]. }
+    destruct an as [|an]. { cbn [sig] in Hs; try discriminate Hs; inversion Hs; subst req out; clear Hs; inv_typed; kill_items; prep; unpack; try (pose proof (Hc eq_refl) as Hcps; try (destruct (first_byte_nonempty cps Hcps) as [fb Hfb])); solve [act_tac]. }
+    destruct an as [|an]. { cbn [sig] in Hs; try discriminate Hs; inversion Hs; subst req out; clear Hs; inv_typed; kill_items; prep; unpack; try (pose proof (Hc eq_refl) as Hcps; try (destruct (first_byte_nonempty cps Hcps) as [fb Hfb])); solve [act_tac]. }
+    destruct an as [|an]. { cbn [sig] in Hs; try discriminate Hs; inversion Hs; subst req out; clear Hs; inv_typed; kill_items; prep; unpack; try (pose proof (Hc eq_refl) as Hcps; try (destruct (first_byte_nonempty cps Hcps) as [fb Hfb])); solve [act_tac]. }
+    destruct an as [|an]. { cbn [sig] in Hs; try discriminate Hs; inversion Hs; subst req out; clear Hs; inv_typed; kill_items; prep; unpack; try (pose proof (Hc eq_refl) as Hcps; try (destruct (first_byte_nonempty cps Hcps) as [fb Hfb])); solve [act_tac]. }
+    destruct an as [|an]. { cbn [sig] in Hs; try discriminate Hs; inversion Hs; subst req out; clear Hs; inv_typed; kill_items; prep; unpack; try (pose proof (Hc eq_refl) as Hcps; try (destruct (first_byte_nonempty cps Hcps) as [fb Hfb])); solve [act_tac]. }
+    destruct an as [|an]. { cbn [sig] in Hs; try discriminate Hs; inversion Hs; subst req out; clear Hs; inv_typed; kill_items; prep; unpack; try (pose proof (Hc eq_refl) as Hcps; try (destruct (first_byte_nonempty cps Hcps) as [fb Hfb])); solve [act_tac]. }
+    destruct an as [|an]. { cbn [sig] in Hs; try discriminate Hs; inversion Hs; subst req out; clear Hs; inv_typed; kill_items; prep; unpack; try (pose proof (Hc eq_refl) as Hcps; try (destruct (first_byte_nonempty cps Hcps) as [fb Hfb])); solve [act_tac]. }
+    destruct an as [|an]. { cbn [sig] in Hs; try discriminate Hs; inversion Hs; subst req out; clear Hs; inv_typed; kill_items; prep; unpack; try (pose proof (Hc eq_refl) as Hcps; try (destruct (first_byte_nonempty cps Hcps) as [fb Hfb])); solve [act_tac]. }
+    destruct an as [|an]. { cbn [sig] in Hs; try discriminate Hs; inversion Hs; subst req out; clear Hs; inv_typed; kill_items; prep; unpack; try (pose proof (Hc eq_refl) as Hcps; try (destruct (first_byte_nonempty cps Hcps) as [fb Hfb])); solve [act_tac]. }
+    destruct an as [|an]. { cbn [sig] in Hs; try discriminate Hs; inversion Hs; subst req out; clear Hs; inv_typed; kill_items; prep; unpack; try (pose proof (Hc eq_refl) as Hcps; try (destruct (first_byte_nonempty cps Hcps) as [fb Hfb])); solve [act_tac]. }
+    destruct an as [|an]. { cbn [sig] in Hs; try discriminate Hs; inversion Hs; subst req out; clear Hs; inv_typed; kill_items; cbn [Actions.exec_action]; unfold pop_node; repeat (rewrite pop_G; cbn [abind]); match goal with Hm : has_ty (INode ?a) TFM = true, Hi : has_ty (INode ?c) TFI = true |- context [push_multi _ ?a ?c ?st] => destruct (push_multi_ok cfg a c st Hm Hi) as (m & E & T); rewrite E end; cbn [wpa]; rewrite push_G; exists [INode m]; split; [constructor; [exact T|constructor]|reflexivity]. }
+    destruct an as [|an]. { cbn [sig] in Hs; try discriminate Hs; inversion Hs; subst req out; clear Hs; inv_typed; kill_items; prep; unpack; try (pose proof (Hc eq_refl) as Hcps; try (destruct (first_byte_nonempty cps Hcps) as [fb Hfb])); solve [act_tac]. }
+    destruct an as [|an]. { cbn [sig] in Hs; try discriminate Hs; inversion Hs; subst req out; clear Hs; inv_typed; kill_items; prep; unpack; try (pose proof (Hc eq_refl) as Hcps; try (destruct (first_byte_nonempty cps Hcps) as [fb Hfb])); solve [act_tac]. }
+    destruct an as [|an]. { cbn [sig] in Hs; try discriminate Hs; inversion Hs; subst req out; clear Hs; inv_typed; kill_items; prep; unpack; try (pose proof (Hc eq_refl) as Hcps; try (destruct (first_byte_nonempty cps Hcps) as [fb Hfb])); solve [act_tac]. }
+    destruct an as [|an]. { cbn [sig] in Hs; try discriminate Hs; inversion Hs; subst req out; clear Hs; inv_typed; kill_items; prep; unpack; try (pose proof (Hc eq_refl) as Hcps; try (destruct (first_byte_nonempty cps Hcps) as [fb Hfb])); solve [act_tac]. }
+    destruct an as [|an]. { cbn [sig] in Hs; try discriminate Hs; inversion Hs; subst req out; clear Hs; inv_typed; kill_items; prep; unpack; try (pose proof (Hc eq_refl) as Hcps; try (destruct (first_byte_nonempty cps Hcps) as [fb Hfb])); solve [act_tac]. }
+    destruct an as [|an]. { cbn [sig] in Hs; try discriminate Hs; inversion Hs; subst req out; clear Hs; inv_typed; kill_items; prep; unpack; try (pose proof (Hc eq_refl) as Hcps; try (destruct (first_byte_nonempty cps Hcps) as [fb Hfb])); solve [act_tac]. }
+    destruct an as [|an]. { cbn [sig] in Hs; try discriminate Hs; inversion Hs; subst req out; clear Hs; inv_typed; kill_items; prep; unpack; try (pose proof (Hc eq_refl) as Hcps; try (destruct (first_byte_nonempty cps Hcps) as [fb Hfb])); solve [act_tac]. }
+    destruct an as [|an]. { cbn [sig] in Hs; try discriminate Hs; inversion Hs; subst req out; clear Hs; inv_typed; kill_items; prep; unpack; try (pose proof (Hc eq_refl) as Hcps; try (destruct (first_byte_nonempty cps Hcps) as [fb Hfb])); solve [act_tac]. }
+    destruct an as [|an]. { cbn [sig] in Hs; try discriminate Hs; inversion Hs; subst req out; clear Hs; inv_typed; kill_items; prep; unpack; try (pose proof (Hc eq_refl) as Hcps; try (destruct (first_byte_nonempty cps Hcps) as [fb Hfb])); solve [act_tac]. }
+    destruct an as [|an]. { cbn [sig] in Hs; try discriminate Hs; inversion Hs; subst req out; clear Hs; inv_typed; kill_items; prep; unpack; try (pose proof (Hc eq_refl) as Hcps; try (destruct (first_byte_nonempty cps Hcps) as [fb Hfb])); solve [act_tac]. }
+    destruct an as [|an]. { cbn [sig] in Hs; try discriminate Hs; inversion Hs; subst req out; clear Hs; inv_typed; kill_items; prep; unpack; try (pose proof (Hc eq_refl) as Hcps; try (destruct (first_byte_nonempty cps Hcps) as [fb Hfb])); solve [act_tac]. }
+    destruct an as [|an]. { cbn [sig] in Hs; try discriminate Hs; inversion Hs; subst req out; clear Hs; inv_typed; kill_items; prep; unpack; try (pose proof (Hc eq_refl) as Hcps; try (destruct (first_byte_nonempty cps Hcps) as [fb Hfb])); solve [act_tac]. }
+    destruct an as [|an]. { cbn [sig] in Hs; try discriminate Hs; inversion Hs; subst req out; clear Hs; inv_typed; kill_items; prep; unpack; try (pose proof (Hc eq_refl) as Hcps; try (destruct (first_byte_nonempty cps Hcps) as [fb Hfb])); solve [act_tac]. }
+    destruct an as [|an]. { cbn [sig] in Hs; try discriminate Hs; inversion Hs; subst req out; clear Hs; inv_typed; kill_items; prep; unpack; try (pose proof (Hc eq_refl) as Hcps; try (destruct (first_byte_nonempty cps Hcps) as [fb Hfb])); solve [act_tac]. }
     destruct an as [|an]. { cbn [sig] in Hs; try discriminate Hs; inversion Hs; subst req out; clear Hs; inv_typed; kill_items; cbn [has_ty] in *; cbn [Actions.exec_action]; rewrite pop_G; cbn [abind]; rewrite act26_eq; match goal with |- context [two_cur ?q] => destruct (two_cur q) eqn:Et end; [exact I|]; cbn [wpa]; rewrite push_G; exists [IQuery q]; split; [constructor; [cbn [has_ty]; repeat match goal with H : _ && _ = true |- _ => apply andb_true_iff in H; destruct H end; apply andb_true_iff; split; [apply rawq_wf; assumption|assumption]|constructor]|reflexivity]. }
-    destruct an as [|an]. { cbn [sig] in Hs; try discriminate Hs; inversion Hs; subst req out; clear Hs; inv_typed; kill_items; prep; unpack; try (destruct (first_byte_nonempty cps (Hc eq_refl)) as [fb Hfb]); solve [act_tac]. }
+    destruct an as [|an]. { cbn [sig] in Hs; try discriminate Hs; inversion Hs; subst req out; clear Hs; inv_typed; kill_items; prep; unpack; try (pose proof (Hc eq_refl) as Hcps; try (destruct (first_byte_nonempty cps Hcps) as [fb Hfb])); solve [act_tac]. }
     destruct an as [|an]. { cbn [sig] in Hs; try discriminate Hs; inversion Hs; subst req out; clear Hs; inv_typed; kill_items; cbn [has_ty] in *; cbn [Actions.exec_action]; unfold two_operands, pop_cparam; repeat (rewrite pop_G; cbn [abind]); match goal with |- context [push_compare_eq ?l ?r ?st] => destruct (compare_eq_raw l r st ltac:(assumption) ltac:(assumption)) as (q & E & R1 & R2); rewrite E end; cbn [abind wpa]; rewrite push_G; exists [IQuery q]; split; [constructor; [exact R1|constructor]|reflexivity]. }
     destruct an as [|an]. { cbn [sig] in Hs; try discriminate Hs; inversion Hs; subst req out; clear Hs; inv_typed; kill_items; cbn [has_ty] in *; cbn [Actions.exec_action]; unfold two_operands, pop_cparam; repeat (rewrite pop_G; cbn [abind]); match goal with |- context [push_compare_eq ?l ?r ?st] => destruct (compare_eq_raw l r st ltac:(assumption) ltac:(assumption)) as (q & E & R1 & R2); rewrite E end; unfold pop_query; rewrite push_G, pop_G; cbn [abind wpa]; rewrite push_G; exists [IQuery (QNot q)]; split; [constructor; [exact R2|constructor]|reflexivity]. }
     destruct an as [|an]. { cbn [sig] in Hs; try discriminate Hs; inversion Hs; subst req out; clear Hs; inv_typed; kill_items; cbn [has_ty] in *; cbn [Actions.exec_action]; unfold two_operands, pop_cparam; repeat (rewrite pop_G; cbn [abind]); match goal with |- context [push_compare_ord ?c ?l ?r ?st] => destruct (compare_ord_raw c l r st ltac:(assumption) ltac:(assumption)) as (q & E & R1); rewrite E end; cbn [abind wpa]; rewrite push_G; exists [IQuery q]; split; [constructor; [exact R1|constructor]|reflexivity]. }
     destruct an as [|an]. { cbn [sig] in Hs; try discriminate Hs; inversion Hs; subst req out; clear Hs; inv_typed; kill_items; cbn [has_ty] in *; cbn [Actions.exec_action]; unfold two_operands, pop_cparam; repeat (rewrite pop_G; cbn [abind]); match goal with |- context [push_compare_ord ?c ?l ?r ?st] => destruct (compare_ord_raw c l r st ltac:(assumption) ltac:(assumption)) as (q & E & R1); rewrite E end; cbn [abind wpa]; rewrite push_G; exists [IQuery q]; split; [constructor; [exact R1|constructor]|reflexivity]. }
     destruct an as [|an]. { cbn [sig] in Hs; try discriminate Hs; inversion Hs; subst req out; clear Hs; inv_typed; kill_items; cbn [has_ty] in *; cbn [Actions.exec_action]; unfold two_operands, pop_cparam; repeat (rewrite pop_G; cbn [abind]); match goal with |- context [push_compare_ord ?c ?l ?r ?st] => destruct (compare_ord_raw c l r st ltac:(assumption) ltac:(assumption)) as (q & E & R1); rewrite E end; cbn [abind wpa]; rewrite push_G; exists [IQuery q]; split; [constructor; [exact R1|constructor]|reflexivity]. }
     destruct an as [|an]. { cbn [sig] in Hs; try discriminate Hs; inversion Hs; subst req out; clear Hs; inv_typed; kill_items; cbn [has_ty] in *; cbn [Actions.exec_action]; unfold two_operands, pop_cparam; repeat (rewrite pop_G; cbn [abind]); match goal with |- context [push_compare_ord ?c ?l ?r ?st] => destruct (compare_ord_raw c l r st ltac:(assumption) ltac:(assumption)) as (q & E & R1); rewrite E end; cbn [abind wpa]; rewrite push_G; exists [IQuery q]; split; [constructor; [exact R1|constructor]|reflexivity]. }
-    destruct an as [|an]. { cbn [sig] in Hs; try discriminate Hs; inversion Hs; subst req out; clear Hs; inv_typed; kill_items; prep; unpack; try (destruct (first_byte_nonempty cps (Hc eq_refl)) as [fb Hfb]); solve [act_tac]. }
-    destruct an as [|an]. { cbn [sig] in Hs; try discriminate Hs; inversion Hs; subst req out; clear Hs; inv_typed; kill_items; prep; unpack; try (destruct (first_byte_nonempty cps (Hc eq_refl)) as [fb Hfb]); solve [act_tac]. }
-    destruct an as [|an]. { cbn [sig] in Hs; try discriminate Hs; inversion Hs; subst req out; clear Hs; inv_typed; kill_items; prep; unpack; try (destruct (first_byte_nonempty cps (Hc eq_refl)) as [fb Hfb]); solve [act_tac]. }
-    destruct an as [|an]. { cbn [sig] in Hs; try discriminate Hs; inversion Hs; subst req out; clear Hs; inv_typed; kill_items; prep; unpack; try (destruct (first_byte_nonempty cps (Hc eq_refl)) as [fb Hfb]); solve [act_tac]. }
-    destruct an as [|an]. { cbn [sig] in Hs; try discriminate Hs; inversion Hs; subst req out; clear Hs; inv_typed; kill_items; prep; unpack; try (destruct (first_byte_nonempty cps (Hc eq_refl)) as [fb Hfb]); solve [act_tac]. }
-    destruct an as [|an]. { cbn [sig] in Hs; try discriminate Hs; inversion Hs; subst req out; clear Hs; inv_typed; kill_items; prep; unpack; try (destruct (first_byte_nonempty cps (Hc eq_refl)) as [fb Hfb]); solve [act_tac]. }
-    destruct an as [|an]. { cbn [sig] in Hs; try discriminate Hs; inversion Hs; subst req out; clear Hs; inv_typed; kill_items; prep; unpack; try (destruct (first_byte_nonempty cps (Hc eq_refl)) as [fb Hfb]); solve [act_tac]. }
-    destruct an as [|an]. { cbn [sig] in Hs; try discriminate Hs; inversion Hs; subst req out; clear Hs; inv_typed; kill_items; prep; unpack; try (destruct (first_byte_nonempty cps (Hc eq_refl)) as [fb Hfb]); solve [act_tac]. }
-    destruct an as [|an]. { cbn [sig] in Hs; try discriminate Hs; inversion Hs; subst req out; clear Hs; inv_typed; kill_items; prep; unpack; try (destruct (first_byte_nonempty cps (Hc eq_refl)) as [fb Hfb]); solve [act_tac]. }
-    destruct an as [|an]. { cbn [sig] in Hs; try discriminate Hs; inversion Hs; subst req out; clear Hs; inv_typed; kill_items; prep; unpack; try (destruct (first_byte_nonempty cps (Hc eq_refl)) as [fb Hfb]); solve [act_tac]. }
-    destruct an as [|an]. { cbn [sig] in Hs; try discriminate Hs; inversion Hs; subst req out; clear Hs; inv_typed; kill_items; prep; unpack; try (destruct (first_byte_nonempty cps (Hc eq_refl)) as [fb Hfb]); solve [act_tac]. }
-    destruct an as [|an]. { cbn [sig] in Hs; try discriminate Hs; inversion Hs; subst req out; clear Hs; inv_typed; kill_items; prep; unpack; try (destruct (first_byte_nonempty cps (Hc eq_refl)) as [fb Hfb]); solve [act_tac]. }
+    destruct an as [|an]. { cbn [sig] in Hs; try discriminate Hs; inversion Hs; subst req out; clear Hs; inv_typed; kill_items; prep; unpack; try (pose proof (Hc eq_refl) as Hcps; try (destruct (first_byte_nonempty cps Hcps) as [fb Hfb])); solve [act_tac]. }
+    destruct an as [|an]. { cbn [sig] in Hs; try discriminate Hs; inversion Hs; subst req out; clear Hs; inv_typed; kill_items; prep; unpack; try (pose proof (Hc eq_refl) as Hcps; try (destruct (first_byte_nonempty cps Hcps) as [fb Hfb])); solve [act_tac]. }
+    destruct an as [|an]. { cbn [sig] in Hs; try discriminate Hs; inversion Hs; subst req out; clear Hs; inv_typed; kill_items; prep; unpack; try (pose proof (Hc eq_refl) as Hcps; try (destruct (first_byte_nonempty cps Hcps) as [fb Hfb])); solve [act_tac]. }
+    destruct an as [|an]. { cbn [sig] in Hs; try discriminate Hs; inversion Hs; subst req out; clear Hs; inv_typed; kill_items; prep; unpack; try (pose proof (Hc eq_refl) as Hcps; try (destruct (first_byte_nonempty cps Hcps) as [fb Hfb])); solve [act_tac]. }
+    destruct an as [|an]. { cbn [sig] in Hs; try discriminate Hs; inversion Hs; subst req out; clear Hs; inv_typed; kill_items; prep; unpack; try (pose proof (Hc eq_refl) as Hcps; try (destruct (first_byte_nonempty cps Hcps) as [fb Hfb])); solve [act_tac]. }
+    destruct an as [|an]. { cbn [sig] in Hs; try discriminate Hs; inversion Hs; subst req out; clear Hs; inv_typed; kill_items; prep; unpack; try (pose proof (Hc eq_refl) as Hcps; try (destruct (first_byte_nonempty cps Hcps) as [fb Hfb])); solve [act_tac]. }
+    destruct an as [|an]. { cbn [sig] in Hs; try discriminate Hs; inversion Hs; subst req out; clear Hs; inv_typed; kill_items; prep; unpack; try (pose proof (Hc eq_refl) as Hcps; try (destruct (first_byte_nonempty cps Hcps) as [fb Hfb])); solve [act_tac]. }
+    destruct an as [|an]. { cbn [sig] in Hs; try discriminate Hs; inversion Hs; subst req out; clear Hs; inv_typed; kill_items; prep; unpack; try (pose proof (Hc eq_refl) as Hcps; try (destruct (first_byte_nonempty cps Hcps) as [fb Hfb])); solve [act_tac]. }
+    destruct an as [|an]. { cbn [sig] in Hs; try discriminate Hs; inversion Hs; subst req out; clear Hs; inv_typed; kill_items; prep; unpack; try (pose proof (Hc eq_refl) as Hcps; try (destruct (first_byte_nonempty cps Hcps) as [fb Hfb])); solve [act_tac]. }
+    destruct an as [|an]. { cbn [sig] in Hs; try discriminate Hs; inversion Hs; subst req out; clear Hs; inv_typed; kill_items; prep; unpack; try (pose proof (Hc eq_refl) as Hcps; try (destruct (first_byte_nonempty cps Hcps) as [fb Hfb])); solve [act_tac]. }
+    destruct an as [|an]. { cbn [sig] in Hs; try discriminate Hs; inversion Hs; subst req out; clear Hs; inv_typed; kill_items; prep; unpack; try (pose proof (Hc eq_refl) as Hcps; try (destruct (first_byte_nonempty cps Hcps) as [fb Hfb])); solve [act_tac]. }
+    destruct an as [|an]. { cbn [sig] in Hs; try discriminate Hs; inversion Hs; subst req out; clear Hs; inv_typed; kill_items; prep; unpack; try (pose proof (Hc eq_refl) as Hcps; try (destruct (first_byte_nonempty cps Hcps) as [fb Hfb])); solve [act_tac]. }
     cbn [sig] in Hs; discriminate Hs.
   Qed.
 End ActSound.
